@@ -5,6 +5,8 @@ PROP = dict(
     mc=[
         dict(module="MCDocsMW", cfg=dict(quick="MCDocsMW_quick.cfg", thorough="MCDocsMW_thorough.cfg"),
              timeout=dict(quick=600, thorough=2400)),
+        dict(module="MCDocsMW", cfg=dict(quick="MCDocsMW_deep_quick.cfg", thorough="MCDocsMW_deep_thorough.cfg"),
+             timeout=dict(quick=600, thorough=2400)),
         dict(module="MCDocsMW", cfg="MCDocsMW_asbuilt_d13.cfg", expect_violation="EscapingHolds", timeout=300),
     ],
     level_text="DocsMW models path.Clean/Join/Split, the option defaulting of Spec, Redoc, RapiDoc, SwaggerUI and the OAuth2 callback, "
